@@ -126,6 +126,13 @@ Definition val_bent (v : fval) : bent :=
   end.
 Definition bent_zero : fval := bent_val (mkBE 0 0 0 0 []).
 
+(* BlockEntity.PackXZ / UnpackXZ (tied to the translated expressions by Proofs/C13_tie.v) *)
+Definition pack_xz (x z : Z) : option Z :=
+  if ((15 <? x) || (15 <? z) || (x <? 0) || (z <? 0))%Z then None
+  else Some (sx8 (u8 (Z.lor (Z.shiftl x 4) z))).
+Definition unpack_xz (xz : Z) : Z * Z :=
+  (Z.of_N (N.land (N.shiftr (u8 xz) 4) 15), Z.of_N (N.land (u8 xz) 15)).
+
 (* BlockEntity.WriteTo: Byte, Short, VarInt, NBT(RawMessage) = type byte then the raw data; a RawMessage
    of type TagEnd (no NBT data) is written as NBT(nil), a lone TAG_End (since fix b1644ed) *)
 Definition be_write (v : fval) : wres :=
